@@ -9,6 +9,8 @@ import (
 	"context"
 	"encoding/json"
 	"fmt"
+	"os"
+	"runtime/pprof"
 	"sort"
 	"strings"
 	"sync/atomic"
@@ -493,6 +495,30 @@ func runCase(run *hx.Run, jc jcase) {
 	}
 	s.drain(dr)
 	s.doDump()
+	// relay decisions against the tables the discoveries left behind, with the table's own first
+	// choice already on the path (the case in which "not on the path" has to do something)
+	nrel := 0
+	for n := range net.Nodes {
+		for t := range net.Nodes {
+			if n == t || nrel >= 8 {
+				continue
+			}
+			hops := net.Nodes[n].Svc.VerifTable().GetNextHop(net.Nodes[t].Overlay)
+			if len(hops) == 0 {
+				continue
+			}
+			var hi []int
+			for _, h := range hops {
+				hi = append(hi, net.Index(h.Bytes()))
+			}
+			sort.Ints(hi)
+			s.doRelay(n, t, hi[:1])
+			if len(hi) > 1 {
+				s.doRelay(n, t, hi)
+			}
+			nrel++
+		}
+	}
 	var al []string
 	for i := range adj {
 		var l []int
@@ -590,10 +616,15 @@ func main() {
 		run.Finish()
 		return
 	}
+	if pf := os.Getenv("VERIF_CPUPROF"); pf != "" {
+		f, _ := os.Create(pf)
+		_ = pprof.StartCPUProfile(f)
+		defer pprof.StopCPUProfile()
+	}
 	for _, jc := range corpus() {
 		runCase(run, jc)
 	}
-	n := run.N(60, 1500)
+	n := run.N(40, 600)
 	for i := 0; i < n; i++ {
 		runCase(run, genCase(run.R))
 	}
